@@ -567,7 +567,7 @@ func (o *Origin) RoundTrip(req *http.Request) (*http.Response, error) {
 	}
 	ev := M{"ev": "call", "x": x, "c": call, "bg": bg, "scripted": scripted, "k": a.K,
 		"m": req.Method, "t0": logT(w.epoch, t0), "lat": a.Lat,
-		"inm": w.etagClass(inm), "ims": w.dateClass(ims), "rng": b2i(req.Header.Get("Range") != ""),
+		"inm": w.etagClass(inm), "ims": w.dateClass(ims), "rng": b2i(req.Header.Get("Range") != "" || len(req.Header["range"]) > 0),
 		"oic": b2i(strings.Contains(strings.ToLower(strings.Join(req.Header.Values("Cache-Control"), ",")), "only-if-cached")),
 		"url": req.URL.String(), "hsame": b2i(sameButConditional(req.Header, e.hdr)), "usame": b2i(e.url == "" || req.URL.String() == e.url),
 	}
